@@ -28,8 +28,10 @@ theorem C02_tuple (t : Spec.Tuple) (h : t.WF) (off : Nat) :
 
 /-- One page: for every well-formed page — any number of line pointers in any mix of states (unused,
 redirect, dead with arbitrary offset/length garbage), tuples anywhere between pd_upper and the page end in any
-order, any layout version 1..10 — ParsePage yields one entry per NORMAL pointer, none for the others, in
-line-pointer order, each byte-identical to the stored tuple. -/
+order, any layout version 1..10, the NORMAL pointers naming pairwise distinct tuples (PostgreSQL never lets two
+pointers share storage; `Page.WF`'s last conjunct) — ParsePage yields one entry per NORMAL pointer, none for the
+others, in line-pointer order, each byte-identical to the stored tuple.  (ParsePage's overlap guard, fix heap/02,
+never fires on such a page: `Proofs.items_no_overlap`.) -/
 theorem C02_page (p : Spec.Page) (h : p.WF) :
     (parsePage (Spec.encPage p)).map (fun ts => ts.map fun m => viewOf ⟨m, 0⟩) = .ok (p.normalTuples.map (Spec.tupleView 0)) := by
   rw [parsePage_enc p h]
@@ -62,6 +64,16 @@ example :
                            lps := [.normal 1, .other 0 3 0, .normal 0], free := zeros 100,
                            slots := [([], t), ([9], t)], tail := zeros (8192 - 36 - 100 - 26 - 27) }
     p.WF ∧ (Spec.scanView [.page p]).length = 2 := by
+  decide +kernel
+
+/-- the last conjunct of `Page.WF` at work: a page whose two NORMAL pointers name the SAME slot is not well formed
+(PostgreSQL never produces it; C02 says nothing about it) — and ParsePage reports the shared tuple once, not twice -/
+example :
+    let t : Spec.Tuple := { xmin := 2, xmax := 0, cid := 0, ctid := zeros 6, infomask2 := 1, infomask := 0x0900, mid := [0], data := [7, 7] }
+    let p : Spec.Page := { hdr0 := zeros 12, special := 8192, version := 4, prune := 0,
+                           lps := [.normal 0, .normal 0], free := zeros 100,
+                           slots := [([], t)], tail := zeros (8192 - 32 - 100 - 26) }
+    ¬ p.WF ∧ (parsePage (Spec.encPage p)).toOption.map List.length = some 1 := by
   decide +kernel
 
 end PgVerif.Props.C02
